@@ -345,7 +345,18 @@ class InfixExpression(FilterExpression):
     def __str__(self) -> str:
         if self.logical:
             return f"({self.left} {self.operator} {self.right})"
-        return f"{self.left} {self.operator} {self.right}"
+        return (
+            f"{self._operand_str(self.left)} {self.operator} "
+            f"{self._operand_str(self.right)}"
+        )
+
+    @staticmethod
+    def _operand_str(operand: FilterExpression) -> str:
+        # A comparison that is itself an operand of a comparison keeps its
+        # parentheses, or `(a == 1) == true` would read as `a == (1 == true)`.
+        if isinstance(operand, InfixExpression) and not operand.logical:
+            return f"({operand})"
+        return str(operand)
 
     def __eq__(self, other: object) -> bool:
         return (
